@@ -284,8 +284,9 @@ def oracle_history(case, obs):
                 if len(lru) >= case["cap"]:
                     lru.pop(0)
                 lru.append((idn, (want["ok"]["name"], want["ok"]["text"])))
-        collide = [p for p in seen if key_string(p) == key_string(idn) and p != idn]
-        seen.append(idn)
+        # a template served earlier to a different (name, namespace) with the same key string
+        collide = {o for p, o in seen if key_string(p) == key_string(idn) and p != idn and o is not None}
+        seen.append((idn, got["ok"]["text"][0] if "ok" in got else None))
         if "ok" in got and got["ok"]["g"] != expected_globals(case, ev):
             return (f"{kind}|{mode}|globals", f"request {i} {ev}: globals {got['ok']['g']}, the request asked for {expected_globals(case, ev)}")
         if got == expect:
@@ -293,19 +294,14 @@ def oracle_history(case, obs):
         detail = f"request {i} {ev}: caching loader {got}, expected {expect}"
         if "err" in got:
             return (f"{kind}|{mode}|raises-{got['err']}", detail)
+        if "ok" in got and got["ok"]["text"][0] in collide and ("err" in expect or got["ok"]["text"][0] != expect["ok"]["text"][0]):
+            return ("key-collision", detail + " — the cache key string is shared with another (name, namespace)")
         if "err" in expect:
-            sig = "served-after-" + expect["err"]
-            if collide:
-                return (f"key-collision|{kind}", detail)
-            return (f"{kind}|{mode}|{sig}", detail)
+            return (f"{kind}|{mode}|served-after-{expect['err']}", detail)
         a, b = got["ok"], expect["ok"]
         if a["text"][0] != b["text"][0] or a["name"] != b["name"]:
-            if collide:
-                return (f"key-collision|{kind}", detail)
             return (f"{kind}|{mode}|wrong-template", detail)
         if a["text"] != b["text"]:
-            if collide:
-                return (f"key-collision|{kind}", detail)
             if kind == "choice" and where.get(a["text"][1]) == 1 and where.get(b["text"][1]) == 0:
                 return ("choice|shadowed-by-earlier-loader", detail)
             return (f"{kind}|{mode}|stale-source", detail)
@@ -461,7 +457,7 @@ class SlashStream(HistoryStream):
     def cases(self, ctx):
         L = ctx.scale(3, 4)
         out = []
-        for kind in ("dict", "ns", "fs", "choice"):
+        for kind in ("dict", "ns", "fs") + (("choice",) if ctx.tier == "thorough" else ()):
             files = ["a", "x/a"] + (["x/x/a"] if kind == "ns" else [])
             pre = [edit(f, True) for f in files]
             reqs = [
